@@ -48,39 +48,84 @@ Section Mem.
   Lemma length_upd : forall A n (l : list A) x, length (upd n l x) = length l.
   Proof. induction n; destruct l; cbn; auto. Qed.
 
-  Lemma hget_hset_same : forall (h : heap) a c c0, hget h a = Some c0 -> hget (hset h a c) a = Some c.
+  Lemma nth_error_updv_same : forall n (l : list (cell * nat)) c c0 v,
+    nth_error l n = Some (c0, v) -> nth_error (updv n l c) n = Some (c, S v).
+  Proof. induction n; destruct l as [|[c1 v1] l]; cbn; intros; try discriminate; [congruence | eauto]. Qed.
+
+  Lemma nth_error_updv_none : forall n (l : list (cell * nat)) c, nth_error l n = None -> nth_error (updv n l c) n = None.
+  Proof. induction n; destruct l as [|[c1 v1] l]; cbn; intros; try discriminate; auto. Qed.
+
+  Lemma nth_error_updv_other : forall n m (l : list (cell * nat)) c, n <> m -> nth_error (updv n l c) m = nth_error l m.
+  Proof. induction n; destruct m, l as [|[c1 v1] l]; cbn; intros; try congruence; auto. Qed.
+
+  Lemma hgetv_hset_same : forall (h : heap) a c c0 v, hgetv h a = Some (c0, v) -> hgetv (hset h a c) a = Some (c, S v).
   Proof.
-    unfold hget, hset; intros h [r i] c c0 H; cbn in *.
-    rewrite nth_set_arena_same. apply nth_error_upd_same. apply nth_error_Some. congruence.
+    unfold hgetv, hset; intros h [r i] c c0 v H; cbn in *.
+    rewrite nth_set_arena_same. eapply nth_error_updv_same; eauto.
   Qed.
 
-  Lemma hget_hset_other : forall (h : heap) a a' c, a <> a' -> hget (hset h a c) a' = hget h a'.
+  Lemma hgetv_hset_none : forall (h : heap) a c, hgetv h a = None -> hgetv (hset h a c) a = None.
   Proof.
-    unfold hget, hset; intros h [r i] [r' i'] c H; cbn in *.
+    unfold hgetv, hset; intros h [r i] c H; cbn in *.
+    rewrite nth_set_arena_same. apply nth_error_updv_none; assumption.
+  Qed.
+
+  Lemma hgetv_hset_other : forall (h : heap) a a' c, a <> a' -> hgetv (hset h a c) a' = hgetv h a'.
+  Proof.
+    unfold hgetv, hset; intros h [r i] [r' i'] c H; cbn in *.
     destruct (Nat.eq_dec r r') as [->|Hr].
-    - rewrite nth_set_arena_same. apply nth_error_upd_other. congruence.
+    - rewrite nth_set_arena_same. apply nth_error_updv_other. congruence.
     - rewrite nth_set_arena_other by assumption. reflexivity.
   Qed.
 
-  Lemma hget_halloc_new : forall r (h h' : heap) c a, halloc r h c = (h', a) -> hget h' a = Some c /\ hget h a = None.
+  Lemma hgetv_halloc_new : forall r (h h' : heap) c a, halloc r h c = (h', a) -> hgetv h' a = Some (c, 0) /\ hgetv h a = None.
   Proof.
-    unfold halloc, hget; intros r h h' c a H; inversion H; subst; cbn.
+    unfold halloc, hgetv; intros r h h' c a H; inversion H; subst; cbn.
     rewrite nth_set_arena_same. split.
     - rewrite nth_error_app2 by lia. rewrite Nat.sub_diag. reflexivity.
     - apply nth_error_None. lia.
   Qed.
 
-  Lemma hget_halloc_old : forall r (h h' : heap) c a a', halloc r h c = (h', a) -> a' <> a -> hget h' a' = hget h a'.
+  Lemma hgetv_halloc_old : forall r (h h' : heap) c a a', halloc r h c = (h', a) -> a' <> a -> hgetv h' a' = hgetv h a'.
   Proof.
-    unfold halloc, hget; intros r h h' c a [r' i'] H Hn; inversion H; subst; cbn in *.
+    unfold halloc, hgetv; intros r h h' c a [r' i'] H Hn; inversion H; subst; cbn in *.
     destruct (Nat.eq_dec r r') as [->|Hr].
     - rewrite nth_set_arena_same.
       destruct (Nat.lt_ge_cases i' (length (nth r' h []))).
       + rewrite nth_error_app1 by assumption. reflexivity.
       + assert (i' <> length (nth r' h [])) by congruence.
-        transitivity (@None cell); [|symmetry]; apply nth_error_None; rewrite ?app_length; cbn; lia.
+        transitivity (@None (cell * nat)); [|symmetry]; apply nth_error_None; rewrite ?app_length; cbn; lia.
     - rewrite nth_set_arena_other by assumption. reflexivity.
   Qed.
+
+  Lemma hget_some : forall (h : heap) a c, hget h a = Some c <-> exists v, hgetv h a = Some (c, v).
+  Proof.
+    unfold hget; intros h a c. destruct (hgetv h a) as [[c1 v1]|]; split.
+    - intros E; inversion E; eauto.
+    - intros [v E]; inversion E; reflexivity.
+    - discriminate.
+    - intros [v E]; discriminate.
+  Qed.
+
+  Lemma hget_none : forall (h : heap) a, hget h a = None <-> hgetv h a = None.
+  Proof. unfold hget; intros h a. destruct (hgetv h a) as [[c1 v1]|]; split; congruence. Qed.
+
+  Lemma hget_hset_same : forall (h : heap) a c c0, hget h a = Some c0 -> hget (hset h a c) a = Some c.
+  Proof.
+    intros h a c c0 H. apply hget_some in H. destruct H as [v H]. apply hget_some. exists (S v).
+    eapply hgetv_hset_same; eauto.
+  Qed.
+
+  Lemma hget_hset_other : forall (h : heap) a a' c, a <> a' -> hget (hset h a c) a' = hget h a'.
+  Proof. intros. unfold hget. rewrite hgetv_hset_other by assumption. reflexivity. Qed.
+
+  Lemma hget_halloc_new : forall r (h h' : heap) c a, halloc r h c = (h', a) -> hget h' a = Some c /\ hget h a = None.
+  Proof.
+    intros * H. destruct (hgetv_halloc_new _ _ _ _ _ H) as [H1 H2]. unfold hget. rewrite H1, H2. auto.
+  Qed.
+
+  Lemma hget_halloc_old : forall r (h h' : heap) c a a', halloc r h c = (h', a) -> a' <> a -> hget h' a' = hget h a'.
+  Proof. intros. unfold hget. erewrite hgetv_halloc_old by eauto. reflexivity. Qed.
 
   Lemma hget_halloc_mono : forall r (h h' : heap) c a a' c', halloc r h c = (h', a) -> hget h a' = Some c' -> hget h' a' = Some c'.
   Proof.
@@ -92,6 +137,7 @@ Section Mem.
 
   Arguments halloc : simpl never.
   Arguments hget : simpl never.
+  Arguments hgetv : simpl never.
   Arguments hset : simpl never.
 
   Lemma run_bind : forall A B (p : prog V A) (f : A -> prog V B) ar h,
@@ -162,6 +208,57 @@ Section Mem.
     - inversion Hr; subst; assumption.
   Qed.
 
+  (* write counters: they never decrease, and every store to an existing cell increases its counter *)
+  Definition stores (l : list ev) : list addr :=
+    flat_map (fun e => match e with EWr a => [a] | _ => [] end) l.
+
+  Lemma run_ver_mono : forall A (p : prog V A) ar h o h' l,
+    run ar p h = (o, h', l) ->
+    forall a c v, hgetv h a = Some (c, v) -> exists c' v', hgetv h' a = Some (c', v') /\ v <= v'.
+  Proof.
+    induction p as [x0 | a k IH | a c k IH | c k IH | ]; cbn; intros ar h o h' l Hr x cx vx Hx.
+    - inversion Hr; subst; eauto.
+    - destruct (hget h a) as [c|] eqn:E.
+      + destruct (run ar (k c) h) as [[o1 h1] l1] eqn:R. inversion Hr; subst. eapply IH; eauto.
+      + inversion Hr; subst; eauto.
+    - destruct (hget h a) eqn:E.
+      + destruct (run ar k (hset h a c)) as [[o1 h1] l1] eqn:R. inversion Hr; subst.
+        destruct (addr_dec a x) as [->|Hn].
+        * pose proof (hgetv_hset_same _ _ c _ _ Hx) as H1.
+          destruct (IH _ _ _ _ _ R _ _ _ H1) as (c' & v' & H2 & H3). exists c', v'. split; [assumption | lia].
+        * eapply IH; eauto. rewrite hgetv_hset_other by assumption. eassumption.
+      + inversion Hr; subst; eauto.
+    - destruct (halloc ar h c) as [h1 a] eqn:Ea.
+      destruct (run ar (k a) h1) as [[o1 h2] l2] eqn:R. inversion Hr; subst.
+      eapply IH; eauto. destruct (hgetv_halloc_new _ _ _ _ _ Ea) as [_ Hn].
+      rewrite (hgetv_halloc_old _ _ _ _ _ x Ea); [eassumption | congruence].
+    - inversion Hr; subst; eauto.
+  Qed.
+
+  Lemma run_store_bumps : forall A (p : prog V A) ar h o h' l,
+    run ar p h = (o, h', l) ->
+    forall a c v, In a (stores l) -> hgetv h a = Some (c, v) -> exists c' v', hgetv h' a = Some (c', v') /\ v < v'.
+  Proof.
+    induction p as [x0 | a k IH | a c k IH | c k IH | ]; cbn; intros ar h o h' l Hr x cx vx Hin Hx.
+    - inversion Hr; subst. contradiction.
+    - destruct (hget h a) as [c|] eqn:E.
+      + destruct (run ar (k c) h) as [[o1 h1] l1] eqn:R. inversion Hr; subst. cbn in Hin. eapply IH; eauto.
+      + inversion Hr; subst. cbn in Hin. contradiction.
+    - destruct (hget h a) eqn:E.
+      + destruct (run ar k (hset h a c)) as [[o1 h1] l1] eqn:R. inversion Hr; subst. cbn in Hin.
+        destruct (addr_dec a x) as [->|Hn].
+        * pose proof (hgetv_hset_same _ _ c _ _ Hx) as H1.
+          destruct (run_ver_mono _ _ _ _ _ _ _ R _ _ _ H1) as (c' & v' & H2 & H3). exists c', v'. split; [assumption | lia].
+        * destruct Hin as [->|Hin]; [contradiction|]. eapply IH; eauto. rewrite hgetv_hset_other by assumption. eassumption.
+      + inversion Hr; subst. cbn in Hin. destruct Hin as [->|[]].
+        apply hget_none in E. congruence.
+    - destruct (halloc ar h c) as [h1 a] eqn:Ea.
+      destruct (run ar (k a) h1) as [[o1 h2] l2] eqn:R. inversion Hr; subst. cbn in Hin.
+      eapply IH; eauto. destruct (hgetv_halloc_new _ _ _ _ _ Ea) as [_ Hn].
+      rewrite (hgetv_halloc_old _ _ _ _ _ x Ea); [eassumption | congruence].
+    - inversion Hr; subst. contradiction.
+  Qed.
+
   (* a program without Wr/New leaves the heap alone *)
   Inductive wfree {A} : prog V A -> Prop :=
   | wf_ret : forall a, wfree (Ret a)
@@ -184,8 +281,10 @@ Section Mem.
 End Mem.
 
 Arguments writes l.
+Arguments stores l.
 Arguments reads l.
 Arguments wfree {V A} p.
 Global Arguments halloc : simpl never.
 Global Arguments hget : simpl never.
+Global Arguments hgetv : simpl never.
 Global Arguments hset : simpl never.
